@@ -7,7 +7,9 @@ def main() -> int:
     env.init()
     import hypothesis
     import qce_circuit
-    print(f"setup ok: hypothesis {hypothesis.__version__}, qce_circuit from {qce_circuit.__file__}")
+    fuzz = env.bootstrap_atheris()
+    print(f"setup ok: hypothesis {hypothesis.__version__}, qce_circuit from {qce_circuit.__file__}, "
+          f"atheris {'available' if fuzz else 'NOT available (coverage-guided parts will be skipped and noted)'}")
     return 0
 
 
